@@ -98,6 +98,79 @@ def scn(params):
         t.sim.close()
 
 
+def scn_survive(params):
+    """Memory safety / termination under *ordinary* traffic (the workloads of C10/C14/C15 and of the tunnel checks): the
+    process named by params["who"] must neither be killed by a sanitizer / memcheck report nor stall.  Used by C05 (server)
+    and C06 (client), under ASan+UBSan and in their memcheck passes."""
+    prop, who, seed, cfg = params["prop"], params["who"], params["seed"], params["cfg"]
+    out = {"violations": [], "nontrivial": [], "stats": {"ordinary_traffic_runs": 1}, "evaluations": 0, "sets": {}}
+
+    def judge(sim, p, label):
+        h = sim.health(p)
+        out["evaluations"] = sum(1 for ev in sim.k.log if ev[1] == "recv" and ev[2] == p.name)
+        if h.startswith("sanitizer:") or h.startswith("signal:"):
+            key = h.split(":", 1)[1] if h.startswith("sanitizer:") else h
+            out["violations"].append(("%s:%s" % (prop, key), "%s died while handling ordinary %s traffic (%s)" % (p.name, label, h),
+                                      {"seed": seed, "cfg": _jcfg(cfg), "report": sim.k.sanitizer_report(p)[-2500:]}))
+        elif h == "stalled":
+            out["inconclusive"] = "stalled"
+        else:
+            out["nontrivial"].append(repr(("ordinary", label, who, bool(params.get("memcheck")))))
+
+    if params["kind"] == "session":
+        s = sessions.run_session("%s-o%d" % (prop, params["idx"]), cfg, seed)
+        try:
+            if not s.ok and s.why != "model-login-failed":
+                out["inconclusive"] = s.why
+                return out
+            judge(s.sim, s.srv, "multi-session")
+            return out
+        finally:
+            s.sim.close()
+    D = 20 * US
+
+    def plan(t, sim, rng):
+        k = sim.k
+        t.relay.p.update(tunnelscn.fault_profile(cfg, rng, k.now + US, D))
+        tt = k.now + US
+        ident = 1
+        while tt < t.t0 + D:
+            side = rng.choice(["srv", "cli"])
+            fr = tunnelscn.pick_frame(t, rng, side, (params["idx"] << 20) | ident, 0)
+            k.at(tt, k.offer_tun, "srv" if side == "srv" else t.clients[0].name, fr, ident)
+            ident += 1
+            tt += rng.choice([20000, 200000, 600000, 1200000])
+        return t.t0 + D + 5 * US
+
+    t = tunnelscn.run_tunnel("%s-or%d" % (prop, params["idx"]), cfg, seed, plan)
+    try:
+        if not t.ok and not (t.why or "").startswith("handshake-failed"):
+            out["inconclusive"] = (t.why or "?").split(":")[0]
+            return out
+        p = t.srv if who == "server" else (t.clients[0] if getattr(t, "clients", None) else None)
+        if p is None:
+            out["inconclusive"] = "no-client"
+            return out
+        judge(t.sim, p, "tunnel")
+        return out
+    finally:
+        t.sim.close()
+
+
+def survive_params(ctx, prop, who, n, base):
+    rng = random.Random(ctx.seed * 6151 + sum(map(ord, prop)) + 77)
+    plist = []
+    for i in range(n):
+        if who == "client" or rng.random() < 0.35:
+            cfg = tunnelscn.gen_config(rng, i + ctx.seed, faults=True, nclients_max=1, allow_raw=True)
+            plist.append({"prop": prop, "who": who, "kind": "real", "idx": base + i, "seed": ctx.seed * 100000 + base + i, "cfg": cfg})
+        else:
+            cfg = sessions.gen_session_cfg(rng, i + ctx.seed)
+            cfg["nops"] = min(cfg["nops"], 80)
+            plist.append({"prop": prop, "who": who, "kind": "session", "idx": base + i, "seed": ctx.seed * 100000 + base + i, "cfg": cfg})
+    return plist
+
+
 def _jcfg(c):
     return {k: (v.decode() if isinstance(v, bytes) else v) for k, v in c.items()} if isinstance(c, dict) else c
 
